@@ -231,6 +231,31 @@ def rule_r3(ctx):
         ctx.check("R3", f"CSE key depends on {name}", ok, f, keys[0],
                   f"two nodes that differ in their {name} get the same key and are merged", how="data dependence through the key's locals",
                   construct=f"CSE key lacks {name}")
+    # positional facets are position-preserving: a comprehension over node.inputs that feeds the key contributes one
+    # element per slot (no filter), so an omitted optional input (None) keeps its place
+    filt = []
+
+    def key_exprs(e, depth=0, seen=None):
+        seen = seen if seen is not None else set()
+        yield e
+        for x in ast.walk(e):
+            if isinstance(x, ast.Name) and x.id not in seen and depth < 3:
+                seen.add(x.id)
+                for n in own_nodes(f.node):
+                    if isinstance(n, (ast.Assign, ast.AnnAssign)) and getattr(n, "value", None) is not None and any(
+                            isinstance(t, ast.Name) and t.id == x.id for t in (n.targets if isinstance(n, ast.Assign) else [n.target])):
+                        yield from key_exprs(n.value, depth + 1, seen)
+
+    for e in key_exprs(keys[0].left):
+        for c in ast.walk(e):
+            if isinstance(c, (ast.GeneratorExp, ast.ListComp, ast.SetComp)):
+                for g_ in c.generators:
+                    if isinstance(g_.iter, ast.Attribute) and g_.iter.attr in ("inputs", "outputs") and g_.ifs:
+                        filt.append(c)
+    ctx.check("R3", "CSE key keeps one entry per input slot", not filt, f, filt[0] if filt else keys[0],
+              f"`{norm(filt[0]) if filt else ''}` filters the node's inputs before they enter the key: the position of an input is lost, "
+              "so Op(x, <none>, c) and Op(x, c) get the same key and are merged although they compute different things",
+              how="comprehensions over node.inputs in the key's definition have no filter clause", construct="filtered inputs in the CSE key")
     # attribute values enter the key (not only the names)
     ok = any(d.endswith(".value") and (d.startswith("<Attr>") or d.startswith("$")) for d in deps) and "sorted()" in deps
     ctx.check("R3", "CSE key includes attribute values, order-normalised", ok, f, keys[0],
